@@ -122,4 +122,54 @@ harnesses! {
         cover!(true, "reached");
         check!(!unsafe { UF_OVERFLOW }, "UF table large enough");
     }
+
+    /// S8: mask_response == Expand(masking_key, nonce || "CredentialResponsePad") XOR (server_public_key || envelope)
+    fn s8_mask_response [unwind = 46] {
+        let mk = any_bytes::<8>();
+        let nonce = any_bytes::<32>();
+        let pkv = any_u8();
+        assume(pkv >= 1 && pkv <= 240);
+        let envb = any_bytes::<40>();
+        let pk = PublicKey::<G241>::deserialize(&[PK_TAG, pkv]).unwrap();
+        let env = Envelope::<M>::deserialize(&envb).unwrap();
+        let r = mask_response::<M>(&mk, &nonce, &pk, &env);
+        check!(r.is_ok(), "masking succeeds");
+        if let Ok(m) = r {
+            let want = spec::mask(&mk, &nonce, &[PK_TAG, pkv], &envb[0..32], &envb[32..40]);
+            let got = m.serialize();
+            check!(eq_bytes(&got[0..2], &want[0..2]), "masked_response[0..2] == pad XOR server public key");
+            check!(eq_bytes(&got[2..34], &want[2..34]), "masked_response[2..34] == pad XOR envelope nonce");
+            check!(eq_bytes(&got[34..42], &want[34..42]), "masked_response[34..42] == pad XOR envelope auth tag");
+            cover!(true, "reached");
+            core::mem::forget(m);
+        }
+        core::mem::forget((pk, env));
+    }
+
+    /// S8: unmask_response inverts it: Ok((pk, envelope)) <=> the unmasked first two bytes are a valid public key,
+    /// and then pk/envelope are the unmasked bytes
+    fn s8_unmask_response [unwind = 46] {
+        let mk = any_bytes::<8>();
+        let nonce = any_bytes::<32>();
+        let masked = any_bytes::<42>();
+        let mr = MaskedResponse::<M>::deserialize(&masked);
+        let r = unmask_response::<M>(&mk, &nonce, &mr);
+        let plain = spec::unmask(&mk, &nonce, &masked);
+        let valid = plain[0] == PK_TAG && plain[1] >= 1 && plain[1] <= 240;
+        match r {
+            Ok((pk, env)) => {
+                check!(valid, "garbage public key after unmasking is refused");
+                check!(eq_bytes(&pk.serialize(), &plain[0..2]), "server public key == unmasked bytes");
+                check!(eq_bytes(&env.serialize(), &plain[2..42]), "envelope == unmasked bytes");
+                cover!(true, "ok");
+                core::mem::forget((pk, env));
+            }
+            Err(e) => {
+                check!(!valid, "a valid unmasked public key is accepted");
+                cover!(true, "rejected");
+                core::mem::forget(e);
+            }
+        }
+        core::mem::forget(mr);
+    }
 }
